@@ -31,7 +31,7 @@ def cells(tier, seed):
 
 
 def explore_opts(params, tier):
-    return {"timeout_s": 5.0 if tier == "quick" else 60.0, "max_paths": 120 if params["batch"] else 40, "path_budget_s": 60.0, "engine_opts": {}}
+    return {"timeout_s": 5.0 if tier == "quick" else 20.0, "max_paths": 120 if params["batch"] else 40, "path_budget_s": 60.0, "engine_opts": {}}
 
 
 def describe(tier):
